@@ -1,5 +1,5 @@
 (* Model/C20Run.v - case type and checker evaluated on harness-generated cases (C20) *)
-From ReqV Require Export Lib.Bytes Lib.PackedBytes Model.Base64 Model.Digest Model.ProxyAuth.
+From ReqV Require Export Lib.Bytes Lib.PackedBytes Model.Base64 Model.Digest Model.ProxyAuth Model.AuthReexec.
 
 (* hash oracle table supplied by the harness: (function, input, hex digest) computed with the
    Go standard library for every input the RFC 7616 computation hashes in that case *)
@@ -55,8 +55,12 @@ Inductive c20_case :=
 (* one client, keep-alive, a sequence of (proxy URL, https target?, target address) requests
    through the recording proxy; [texts]: the proxy URL text handed to SetProxyURL where it was
    rendered by net/url from the credentials ([] where it was written by hand); [obs]: per
-   request the Proxy-Authorization values the proxy received (None = header absent) *)
-| ProxySeqCase (rs : list proxy_req) (texts : list bytes) (obs : list (list (option bytes)))
+   request the Proxy-Authorization values the proxy received (None = header absent); [static]:
+   the Proxy-Authorization the caller put into Transport.ProxyConnectHeader, if any *)
+| ProxySeqCase (static : option bytes) (rs : list proxy_req) (texts : list bytes) (obs : list (list (option bytes)))
+(* one Request object executed several times, credential setters on client and request in
+   between; [obs]: the Authorization header the origin received per execution *)
+| ReexecCase (ops : list auth_op) (obs : list (option bytes))
 (* one call through a real client against the scripted origin *)
 | ExchangeCase (t : hash_table) (replayable : bool) (fault : option bool) (first : wire_request) (status : N) (chals : list bytes) (rbody user pass cnonce : bytes)
                (obs_wire : list wire_request) (e : obs_err).
@@ -76,8 +80,8 @@ Definition opt_ui_eqb (a b : option userinfo) : bool :=
    re-used tunnel shows the proxy nothing, a new one shows one CONNECT; when the model re-uses
    but the transport happened to dial (the idle connection was not back in the pool yet) the one
    CONNECT must still carry the current credential *)
-Definition proxy_obs_ok (r : proxy_req) (m o : list (option bytes)) : bool :=
-  let cur := proxy_auth (fst (fst r)) in
+Definition proxy_obs_ok (static : option bytes) (r : proxy_req) (m o : list (option bytes)) : bool :=
+  let cur := sent_auth static (snd (fst r)) (fst (fst r)) in
   if snd (fst r)
   then match m with
        | [] => match o with [] => true | [h] => opt_bytes_eqb h cur | _ => false end
@@ -132,12 +136,13 @@ Definition c20_check (c : c20_case) : bool :=
           if strict_only then implb m go else Bool.eqb m go
       | inr _ => false
       end
+  | ReexecCase ops obs => list_eqb opt_bytes_eqb (rq_run rq_init ops) obs
   | UserinfoCase u s raw op =>
       bytes_eqb (ui_string u) s && opt_ui_eqb (ui_parse s) (Some u) && opt_ui_eqb (ui_parse raw) op
-  | ProxySeqCase rs texts obs =>
+  | ProxySeqCase static rs texts obs =>
       all3 (fun (r : proxy_req) t (_ : list (option bytes)) =>
               match t with [] => true | _ => bytes_eqb (pu_string (fst (fst r))) t end) rs texts obs &&
-      all3 proxy_obs_ok rs (proxy_run [] rs) obs
+      all3 (proxy_obs_ok static) rs (proxy_run static [] rs) obs
   | ExchangeCase t rp fault first status chals rbody user pass cnonce obs e =>
       let rsp := mkResp false status (select_challenge chals) rbody in
       list_eqb wire_eqb (digest_exchange_f (H_tab t) fault rp first rsp user pass cnonce) obs &&
